@@ -15,6 +15,7 @@ fn is_type_only_item(item: &ModuleItem) -> bool {
         ModuleItem::Stmt(Stmt::Decl(Decl::Fn(f))) => f.declare,
         ModuleItem::Stmt(Stmt::Decl(Decl::Var(v))) => v.declare,
         ModuleItem::Stmt(Stmt::Decl(Decl::Class(c))) => c.declare,
+        ModuleItem::Stmt(Stmt::Decl(Decl::TsEnum(e))) => e.declare,
         ModuleItem::ModuleDecl(ModuleDecl::ExportDecl(ExportDecl {
             decl: Decl::TsInterface(..) | Decl::TsTypeAlias(..),
             ..
@@ -43,7 +44,7 @@ impl VisitMut for Eraser {
             !matches!(
                 s,
                 Stmt::Decl(Decl::TsInterface(..) | Decl::TsTypeAlias(..))
-            )
+            ) && !matches!(s, Stmt::Decl(Decl::TsEnum(e)) if e.declare)
         });
         stmts.visit_mut_children_with(self);
     }
